@@ -169,7 +169,7 @@ def bulk_job(arg):
 OPS = ["store", "has", "fetch", "sync", "fetch_paths", "reopen", "has_absent", "fetch_absent", "fetch_paths_absent"]
 
 
-def gen_sequence(rng, n, paths, nkeys=4):
+def gen_sequence(rng, n, paths, nkeys=10):
     seq = []
     for _ in range(n):
         op = rng.choice(OPS)
